@@ -28,6 +28,7 @@ structure Sink where
   mode    : FaultMode := .hard
   forever : Bool := true           -- does it keep failing afterwards
   tag     : Nat := 7               -- identity of the injected error
+  failed  : Bool := false          -- ghost: has this sink ever refused bytes
 deriving Repr, Inhabited
 
 /-- one `Write(b)` on the sink: (new sink, count accepted, error). -/
@@ -39,14 +40,14 @@ def Sink.write (s : Sink) (b : List UInt8) : Sink × Nat × Option Err :=
     else
       let acc := match s.mode with | .hard => 0 | .short => k
       let nb := if s.forever then some 0 else none
-      ({ s with got := s.got ++ b.take acc, budget := nb }, acc, some (.other s.tag))
+      ({ s with got := s.got ++ b.take acc, budget := nb, failed := true }, acc, some (.other s.tag))
 
 /-- bookkeeping for bytes the compressor pushed into the sink during one call. -/
 def Sink.absorb (s : Sink) (emitted : List UInt8) (failed : Bool) : Sink :=
   let b := match s.budget with
     | none => none
     | some k => if failed then (if s.forever then some 0 else none) else some (k - emitted.length)
-  { s with got := s.got ++ emitted, budget := b }
+  { s with got := s.got ++ emitted, budget := b, failed := s.failed || failed }
 
 /-! ### compressor oracle -/
 
@@ -79,6 +80,8 @@ structure XWState where
   sink     : Sink := {}
   oracle   : List ZEv := []
   bad      : Bool := false     -- the oracle did not match the calls the model makes
+  zlog     : List (ZEv × List UInt8) := []   -- ghost: every compressor call with the data it was given/accepted
+  allRecs  : List Record := []   -- ghost: the merged index a reader should reconstruct (absolute offsets)
 deriving Repr, Inhabited
 
 /-- take the next oracle event, checking its kind. -/
@@ -88,14 +91,14 @@ def popEv (s : XWState) (k : ZKind) : ZEv × XWState :=
   | [] => ({ kind := k }, { s with bad := true })
 
 def zReset (s : XWState) : XWState :=
-  let (_, s) := popEv s .zreset
-  { s with zwIn := 0, zwOut := 0 }
+  let (ev, s) := popEv s .zreset
+  { s with zwIn := 0, zwOut := 0, zlog := s.zlog ++ [(ev, [])] }
 
 /-- `xw.Flush(FlushSync)` body. -/
 def flushSync (s : XWState) : XWState :=
   let (ev, s) := popEv s .zflush
   { s with zwOut := s.zwOut + ev.emitted.length, outOff := s.outOff + ev.emitted.length,
-           sink := s.sink.absorb ev.emitted ev.sinkFailed, err := ev.err }
+           sink := s.sink.absorb ev.emitted ev.sinkFailed, err := ev.err, zlog := s.zlog ++ [(ev, [])] }
 
 /-- write a list of meta blocks to the sink, one `Write` per block, stopping at
     the first failure: (sink, bytes accepted, error). -/
@@ -125,7 +128,8 @@ def encodeIndexStep (crc : List UInt8 → Nat) (s : XWState) : XWState :=
     let (sk, acc, e) := emitBlocks s.sink blocks 0
     match e with
     | some err => { s with sink := sk, outOff := s.outOff + acc, err := some err, recs := [], backSize := 0 }
-    | none => { s with sink := sk, outOff := s.outOff + acc, err := none, recs := [], backSize := acc }
+    | none => { s with sink := sk, outOff := s.outOff + acc, err := none, recs := [], backSize := acc,
+                       allRecs := (appendRecord s.allRecs acc 0 indexType).getD s.allRecs }
 
 /-- `Flush(FlushFull)` without the error guard. -/
 def flushFull (crc : List UInt8 → Nat) (s : XWState) : XWState :=
@@ -133,7 +137,7 @@ def flushFull (crc : List UInt8 → Nat) (s : XWState) : XWState :=
   if s.err ≠ none then s
   else
     let recs := (appendRecord s.recs s.zwOut s.zwIn deflateType).getD s.recs
-    let s := zReset { s with recs := recs }
+    let s := zReset { s with recs := recs, allRecs := (appendRecord s.allRecs s.zwOut s.zwIn deflateType).getD s.allRecs }
     if (s.recs.length : Int) = s.nidx then encodeIndexStep crc s else s
 
 /-- `Flush(FlushIndex)` without the error guard. -/
@@ -168,7 +172,8 @@ def writeLoop (crc : List UInt8 → Nat) : Nat → XWState → List UInt8 → Na
         let s := if ev.n > take then { s with bad := true } else s
         let s := { s with zwIn := s.zwIn + ev.n, zwOut := s.zwOut + ev.emitted.length,
                           outOff := s.outOff + ev.emitted.length,
-                          sink := s.sink.absorb ev.emitted ev.sinkFailed, err := ev.err }
+                          sink := s.sink.absorb ev.emitted ev.sinkFailed, err := ev.err,
+                          zlog := s.zlog ++ [(ev, data.take ev.n)] }
         writeLoop crc fuel s (data.drop ev.n) (cnt + ev.n)
 
 /-- `Writer.Write(buf)`: new state, count, error. -/
@@ -197,13 +202,14 @@ def closeW (crc : List UInt8 → Nat) (s : XWState) : XWState × Option Err :=
         | some err => ({ s with err := some err }, some err)
         | none =>
           if blocks.length ≠ 1 then ({ s with err := some .internal }, some .internal)
-          else ({ s with err := some .closed }, none)
+          else ({ s with err := some .closed,
+                         allRecs := (appendRecord s.allRecs acc 0 footerType).getD s.allRecs }, none)
 
 /-- `Writer.Reset(wr)` (also the tail of `NewWriter`). -/
 def resetW (s : XWState) (sink : Sink) : XWState :=
   let s' : XWState := { nidx := if s.nidx = 0 then defaultIndexSize else s.nidx,
                         nchk := if s.nchk = 0 then defaultChunkSize else s.nchk,
-                        sink := sink, oracle := s.oracle, bad := s.bad }
+                        sink := sink, oracle := s.oracle, bad := s.bad, zlog := s.zlog }
   zReset s'
 
 /-- `NewWriter(wr, conf)`; `none` = refused (invalid configuration). Level
